@@ -5,7 +5,7 @@
 use crate::workload::{B, Case};
 use vcommon::Rng;
 
-pub const KNOWN: [&str; 12] = [
+pub const KNOWN: [&str; 13] = [
     "known_width_div",
     "known_width_shr",
     "known_width_index",
@@ -18,6 +18,7 @@ pub const KNOWN: [&str; 12] = [
     "known_cast_trunc",
     "known_allones_literal",
     "simdefect_fn_arg_context",
+    "known_signed_compare",
 ];
 
 pub fn probe(rng: &mut Rng, which: u64) -> Case {
@@ -141,6 +142,15 @@ pub fn probe(rng: &mut Rng, which: u64) -> Case {
             let o = b.output(wa + 2, false);
             b.d(&format!("    function f0 (\n        a0: input logic<{wa}>,\n    ) -> logic<{}> {{\n        return a0 + 1;\n    }}", wa + 1));
             b.b(&format!("    assign {o} = f0(({i} << {i}));"));
+        }
+        12 => {
+            // both operands signed: the comparison must be signed whatever the target's type is
+            let w = 3 + rng.usize(8);
+            let a = b.input(w, true);
+            let c = b.input(w, true);
+            let o = b.output(1 + rng.usize(6), false);
+            let op = *rng.pick(&["<:", "<=", ">:", ">="]);
+            b.b(&format!("    assign {o} = {a} {op} {c};"));
         }
         _ => unreachable!(),
     }
